@@ -50,7 +50,7 @@ func c09Run1(stmts []string, fuel int, noResult bool) (sig, detail string, use m
 		}
 	}
 	for i, src := range stmts {
-		pr := impl.Parse(src, impl.ParseFuel(len(src)))
+		pr := impl.ParseCached(src)
 		if pr.Err != "" || pr.Panic != "" || pr.FuelOut != "" {
 			return "harness:generated-program-does-not-parse", fmt.Sprintf("statement %d `%s`: %s%s%s", i, src, pr.Err, pr.Panic, pr.FuelOut), use, false
 		}
